@@ -6,6 +6,7 @@ package main
 import (
 	"fmt"
 	"math"
+	"os"
 	"runtime"
 	"runtime/debug"
 	"strconv"
@@ -184,11 +185,29 @@ func streamRace(thorough bool) {
 	// cold start: the very first scoring / serialising / parsing calls of the process happen concurrently (lazily
 	// initialised package state shows only here); the sequential reference is computed afterwards
 	for _, v := range versions {
-		objs := make([][]byte, 64)
-		for i := range objs {
-			objs[i] = v.randomWF()
+		// the random choices are drawn here (the rng is not goroutine-safe and the library is not touched yet); the objects
+		// themselves are built inside the goroutines, so the first Set/Get/Vector/score/parse calls are all concurrent
+		const nCold = 64
+		choices := make([][][2]int, nCold)
+		for i := range choices {
+			for k, mt := range v.metrics {
+				if mt.mand || rng.Intn(3) == 0 {
+					choices[i] = append(choices[i], [2]int{k, rng.Intn(len(mt.values))})
+				}
+			}
 		}
-		got := make([]string, len(objs))
+		build := func(i int) []byte {
+			b := make([]byte, v.n)
+			for _, c := range choices[i] {
+				mt := v.metrics[c[0]]
+				if nb, err := v.set(b, mt.abv, mt.values[c[1]]); err == nil {
+					b = nb
+				}
+			}
+			return b
+		}
+		objs := make([][]byte, nCold)
+		got := make([]string, nCold)
 		var wg sync.WaitGroup
 		start := make(chan struct{})
 		for i := range objs {
@@ -196,14 +215,17 @@ func streamRace(thorough bool) {
 			go func(i int) {
 				defer wg.Done()
 				<-start
-				got[i] = v.observe(objs[i]) + " " + v.fullOutcome(v.vector(objs[i]))
+				objs[i] = build(i)
+				g, _ := v.get(objs[i], v.metrics[i%len(v.metrics)].abv)
+				got[i] = g + " " + v.observe(objs[i]) + " " + v.fullOutcome(v.vector(objs[i]))
 			}(i)
 		}
 		close(start)
 		wg.Wait()
 		res := "same"
 		for i := range objs {
-			if want := v.observe(objs[i]) + " " + v.fullOutcome(v.vector(objs[i])); want != got[i] {
+			g, _ := v.get(build(i), v.metrics[i%len(v.metrics)].abv)
+			if want := g + " " + v.observe(build(i)) + " " + v.fullOutcome(v.vector(build(i))); want != got[i] || string(build(i)) != string(objs[i]) {
 				res = "diff cold-start:" + hexB(objs[i])
 			}
 		}
@@ -297,6 +319,23 @@ func streamRace(thorough bool) {
 			}
 		}
 		emit("C "+v.name+" copy-independent 200", res)
+
+		// one live object through a whole history of Set/score/Vector calls: after every step it must behave like a fresh
+		// object with the same bytes (no hidden per-object state such as cached scores)
+		res = "same"
+		for h := 0; h < 40 && res == "same"; h++ {
+			live := v.live(make([]byte, v.n))
+			for st := 0; st < 25; st++ {
+				mt := pick(v.metrics)
+				val := pick(append(append([]string{}, mt.values...), "ZZ"))
+				live.set(mt.abv, val)
+				if got, want := live.observe(), v.observe(live.bytes()); got != want {
+					res = "diff live-object-after-Set(" + mt.abv + "," + val + "):" + hexB(live.bytes())
+					break
+				}
+			}
+		}
+		emit("C "+v.name+" same-object 40x25", res)
 	}
 	// v2 pool: poisoned buffers must not influence results
 	poison := func() []string {
@@ -392,14 +431,10 @@ func (v *version) copyIndependent() string {
 // History stream (C14): the same operations on the same inputs, executed in forward or reverse order by two separate
 // processes; bin/check compares the two outputs key by key. A result that depends on what was called before (caches,
 // memoisation, pooled state) differs between the two runs.
-func streamHist(reverse bool) {
-	type job struct {
-		key string
-		run func() string
-	}
-	var jobs []job
+// histObjects prints the objects (one "ver hex" per line) the hist stream works on; a separate process does this so that
+// neither measured run is pre-warmed by the generation itself
+func histObjects() {
 	for _, v := range versions {
-		v := v
 		zero := make([]byte, v.n)
 		var objs [][]byte
 		bases := [][]byte{zero, v.randomWF(), v.randomWF(), v.randomWF()}
@@ -418,18 +453,44 @@ func streamHist(reverse bool) {
 		}
 		seen := map[string]bool{}
 		for _, b := range objs {
-			b := b
-			if seen[string(b)] {
-				continue
+			if !seen[string(b)] {
+				seen[string(b)] = true
+				out.WriteString(v.name + " " + hexB(b) + "\n")
 			}
-			seen[string(b)] = true
-			jobs = append(jobs, job{"C " + v.name + " history obs:" + hexB(b), func() string { return v.observe(b) }})
-			vec := v.vector(b)
-			jobs = append(jobs, job{"C " + v.name + " history parse:" + hexS(vec), func() string { return v.fullOutcome(vec) }})
-			cut := vec[:len(vec)*2/3]
-			jobs = append(jobs, job{"C " + v.name + " history parse:" + hexS(cut), func() string { return v.fullOutcome(cut) }})
-			jobs = append(jobs, job{"C " + v.name + " history parse:" + hexS(vec+"/"), func() string { return v.fullOutcome(vec + "/") }})
 		}
+	}
+}
+
+func streamHist(reverse bool, objfile string) {
+	type job struct {
+		key string
+		run func() string
+	}
+	var jobs []job
+	data, err := os.ReadFile(objfile)
+	if err != nil {
+		fmt.Fprintln(os.Stderr, "hist: cannot read object file:", err)
+		os.Exit(3)
+	}
+	for _, line := range strings.Split(strings.TrimSpace(string(data)), "\n") {
+		f := strings.Fields(line)
+		if len(f) != 2 {
+			continue
+		}
+		v := verByName(f[0])
+		b := []byte(unhex(f[1]))
+		// the first operation on every object differs between jobs, so each exported function also gets to be "first"
+		jobs = append(jobs, job{"C " + v.name + " history obs:" + hexB(b), func() string { return v.observe(b) }})
+		jobs = append(jobs, job{"C " + v.name + " history vecparse:" + hexB(b), func() string {
+			vec := v.vector(b)
+			return v.fullOutcome(vec) + "_" + v.fullOutcome(vec[:len(vec)*2/3]) + "_" + v.fullOutcome(vec+"/")
+		}})
+		mt := v.metrics[int(b[0])%len(v.metrics)]
+		jobs = append(jobs, job{"C " + v.name + " history setget:" + hexB(b), func() string {
+			nb, err := v.set(b, mt.abv, mt.values[len(mt.values)-1])
+			g, _ := v.get(nb, mt.abv)
+			return hexB(nb) + "_" + v.errCode(err) + "_" + g
+		}})
 	}
 	if reverse {
 		for i, j := 0, len(jobs)-1; i < j; i, j = i+1, j-1 {
@@ -439,5 +500,81 @@ func streamHist(reverse bool) {
 	for _, j := range jobs {
 		out.WriteString(j.key + " | " + strings.ReplaceAll(j.run(), " ", "_") + "\n")
 		nOps++
+	}
+}
+
+// a live object kept across calls (as opposed to the byte-state adapters, which rebuild the object for every call)
+type liveObj struct {
+	set     func(abv, val string)
+	observe func() string
+	bytes   func() []byte
+}
+
+func obsJoin(vec string, gets func(string) string, ms []metric, sc []float64) string {
+	parts := []string{vec}
+	var g []string
+	for _, mt := range ms {
+		g = append(g, gets(mt.abv))
+	}
+	parts = append(parts, strings.Join(g, ","))
+	for _, x := range sc {
+		parts = append(parts, bits(x))
+	}
+	return strings.Join(parts, " ")
+}
+
+func (v *version) live(b []byte) liveObj {
+	hexGet := func(get func(string) (string, error)) func(string) string {
+		return func(a string) string {
+			s, err := get(a)
+			if err != nil {
+				return "!"
+			}
+			return hexS(s)
+		}
+	}
+	switch v.name {
+	case "20":
+		c := gocvss20.VerifFromBytes([4]byte(b))
+		return liveObj{
+			set: func(a, val string) { _ = c.Set(a, val) },
+			observe: func() string {
+				return guard(func() string {
+					return obsJoin(c.Vector(), hexGet(c.Get), v.metrics, []float64{c.BaseScore(), c.TemporalScore(), c.EnvironmentalScore(), c.Impact(), c.Exploitability()})
+				})
+			},
+			bytes: func() []byte { x := gocvss20.VerifBytes(c); return x[:] },
+		}
+	case "30":
+		c := gocvss30.VerifFromBytes([6]byte(b))
+		return liveObj{
+			set: func(a, val string) { _ = c.Set(a, val) },
+			observe: func() string {
+				return guard(func() string {
+					return obsJoin(c.Vector(), hexGet(c.Get), v.metrics, []float64{c.BaseScore(), c.TemporalScore(), c.EnvironmentalScore(), c.Impact(), c.Exploitability()})
+				})
+			},
+			bytes: func() []byte { x := gocvss30.VerifBytes(c); return x[:] },
+		}
+	case "31":
+		c := gocvss31.VerifFromBytes([6]byte(b))
+		return liveObj{
+			set: func(a, val string) { _ = c.Set(a, val) },
+			observe: func() string {
+				return guard(func() string {
+					return obsJoin(c.Vector(), hexGet(c.Get), v.metrics, []float64{c.BaseScore(), c.TemporalScore(), c.EnvironmentalScore(), c.Impact(), c.Exploitability()})
+				})
+			},
+			bytes: func() []byte { x := gocvss31.VerifBytes(c); return x[:] },
+		}
+	default:
+		c := gocvss40.VerifFromBytes([9]byte(b))
+		return liveObj{
+			set: func(a, val string) { _ = c.Set(a, val) },
+			observe: func() string {
+				return guard(func() string { return obsJoin(c.Vector(), hexGet(c.Get), v.metrics, []float64{c.Score()}) })
+			},
+			bytes: func() []byte { x := gocvss40.VerifBytes(c); return x[:] },
+		}
 	}
 }
